@@ -18,6 +18,7 @@ package files
 
 import (
 	"context"
+	"errors"
 	"fmt"
 	"log"
 	"os"
@@ -48,11 +49,17 @@ func (ee *enumerateError) Error() string {
 	return fmt.Sprintf("files enumerate error: %s: %v", ee.msg, ee.err)
 }
 
+func (ee *enumerateError) Unwrap() error { return ee.err }
+
 // readBlobs implements EnumerateBlobs. It calls itself recursively on subdirectories.
 func (ds *Storage) readBlobs(ctx context.Context, opts readBlobRequest) error {
 	dirFullPath := filepath.Join(opts.dirRoot, opts.pathInto)
 	names, err := ds.fs.ReadDirNames(dirFullPath)
 	if err != nil {
+		if opts.pathInto != "" && errors.Is(err, os.ErrNotExist) {
+			// The directory was removed after our caller listed it.
+			return nil
+		}
 		return &enumerateError{"readdirnames of " + dirFullPath, err}
 	}
 	if len(names) == 0 {
@@ -106,6 +113,11 @@ func (ds *Storage) readBlobs(ctx context.Context, opts readBlobRequest) error {
 		isDir := isShardDir(name)
 		if !isDir {
 			fi, err := stat[name].Get()
+			if errors.Is(err, os.ErrNotExist) {
+				// Removed (or a temp file renamed into place) since we
+				// listed the directory: nothing to enumerate.
+				continue
+			}
 			if err != nil {
 				return err
 			}
